@@ -33,6 +33,7 @@ impl NodeStamp {
     pub fn is_removed(self) -> (r: bool)
         // @props C06 C12
         ensures
+            // @ob C06.NodeStamp_is_removed_generation_arithmetic C06
             r == self.removed(),
     {
         self.0.is_negative()
@@ -46,6 +47,7 @@ impl NodeStamp {
             final(self).removed(),
             // @ob C06.as_removed_keeps_high_water C06
             final(self).hw() == old(self).hw(),
+            // @ob C06.NodeStamp_as_removed_generation_arithmetic C06
             final(self).0 == -old(self).0 - 1,
     {
         debug_assert!(!self.is_removed());
@@ -56,6 +58,7 @@ impl NodeStamp {
         requires
             self.removed(),
         ensures
+            // @ob C06.NodeStamp_reuseable_generation_arithmetic C06
             r == self.can_reuse(),
     {
         debug_assert!(self.is_removed());
@@ -70,7 +73,9 @@ impl NodeStamp {
             !final(self).removed(),
             // @ob C06.reuse_exceeds_high_water C06
             final(self).hw() == old(self).hw() + 1,
+            // @ob C06.NodeStamp_reuse_generation_arithmetic C06
             final(self).0 == -old(self).0,
+            // @ob C06.NodeStamp_reuse_generation_arithmetic C06
             r == *final(self),
     {
         debug_assert!(self.reuseable());
@@ -110,6 +115,7 @@ impl NodeId {
     pub fn index0(self) -> (r: usize)
         // @props C11
         ensures
+            // @ob C11.NodeId_index0_position_is_index1_minus_one C11
             r == self.idx(),
     {
         self.index1.get() - 1
@@ -117,8 +123,11 @@ impl NodeId {
     pub fn from_non_zero_usize(index1: NonZeroUsize, stamp: NodeStamp) -> (r: Self)
         // @props C11
         ensures
+            // @ob C11.NodeId_from_non_zero_usize_position_is_index1_minus_one C11
             r.index1 == index1,
+            // @ob C11.NodeId_from_non_zero_usize_position_is_index1_minus_one C11
             r.stamp == stamp,
+            // @ob C11.NodeId_from_non_zero_usize_position_is_index1_minus_one C11
             r.idx() == index1@ - 1,
     {
         NodeId { index1, stamp }
@@ -136,6 +145,7 @@ impl NodeId {
     pub fn ancestors<T>(self, arena: &Arena<T>) -> (r: Ancestors<'_, T>)
         // @props C09 C02
         ensures
+            // @ob C09.NodeId_ancestors_starts_where_documented C09
             r.0.arena == arena && r.0.node == Some(self),
     {
         Ancestors::new(arena, self)
@@ -143,6 +153,7 @@ impl NodeId {
     pub fn predecessors<T>(self, arena: &Arena<T>) -> (r: Predecessors<'_, T>)
         // @props C09
         ensures
+            // @ob C09.NodeId_predecessors_starts_where_documented C09
             r.0.arena == arena && r.0.node == Some(self),
     {
         Predecessors::new(arena, self)
@@ -153,6 +164,7 @@ impl NodeId {
             arena.wf(),
             arena.live(self),
         ensures
+            // @ob C09.NodeId_preceding_siblings_starts_where_documented C09
             r.0.arena == arena,
             // @ob C09.preceding_siblings_yield_the_documented_sequence C09 C10
             forall|w: Ranks| #[trigger]
@@ -166,6 +178,7 @@ impl NodeId {
             arena.wf(),
             arena.live(self),
         ensures
+            // @ob C09.NodeId_following_siblings_starts_where_documented C09
             r.0.arena == arena,
             // @ob C09.following_siblings_yield_the_documented_sequence C09 C10
             forall|w: Ranks| #[trigger]
@@ -179,6 +192,7 @@ impl NodeId {
             arena.wf(),
             arena.has(self),
         ensures
+            // @ob C09.NodeId_children_starts_where_documented C09
             r.0.arena == arena,
             // @ob C09.children_yield_the_documented_sequence C09 C10
             forall|w: Ranks| #[trigger]
@@ -191,6 +205,7 @@ impl NodeId {
         requires
             arena.has(self),
         ensures
+            // @ob C09.NodeId_reverse_children_starts_where_documented C09
             r.0.arena == arena && r.0.node == arena.at(self).last_child,
     {
         ReverseChildren::new(arena, self)
@@ -198,6 +213,7 @@ impl NodeId {
     pub fn descendants<T>(self, arena: &Arena<T>) -> (r: Descendants<'_, T>)
         // @props C09
         ensures
+            // @ob C09.NodeId_descendants_starts_where_documented C09
             r.0.arena == arena && r.0.root == self && r.0.next == Some(NodeEdge::Start(self)),
     {
         Descendants::new(arena, self)
@@ -205,6 +221,7 @@ impl NodeId {
     pub fn traverse<T>(self, arena: &Arena<T>) -> (r: Traverse<'_, T>)
         // @props C09
         ensures
+            // @ob C09.NodeId_traverse_starts_where_documented C09
             r.arena == arena && r.root == self && r.next == Some(NodeEdge::Start(self)),
     {
         Traverse::new(arena, self)
@@ -212,6 +229,7 @@ impl NodeId {
     pub fn reverse_traverse<T>(self, arena: &Arena<T>) -> (r: ReverseTraverse<'_, T>)
         // @props C09
         ensures
+            // @ob C09.NodeId_reverse_traverse_starts_where_documented C09
             r.arena == arena && r.root == self && r.next == Some(NodeEdge::End(self)),
     {
         ReverseTraverse::new(arena, self)
@@ -234,7 +252,9 @@ impl NodeId {
             payload_frame(old(arena).nodes@, final(arena).nodes@),
             // @ob C03.detach_exact_effect C03
             detach_post(old(arena).nodes@, final(arena).nodes@, self.idx()),
+            // @ob C07.NodeId_detach_leaves_the_head_of_the_free_list_alone C07
             final(arena).first_free_slot == old(arena).first_free_slot,
+            // @ob C07.NodeId_detach_leaves_the_tail_of_the_free_list_alone C07
             final(arena).last_free_slot == old(arena).last_free_slot,
             // @ob C02.detach_keeps_rank_witness C02
             forall|w: Ranks| ranked(old(arena).nodes@, w) ==> ranked(final(arena).nodes@, w),
@@ -288,7 +308,9 @@ impl NodeId {
             data_ok(final(arena).nodes@),
             // @ob C07.free_list_well_formed@append C07
             final(arena).fl_ok(),
+            // @ob C07.NodeId_append_leaves_the_head_of_the_free_list_alone C07
             final(arena).first_free_slot == old(arena).first_free_slot,
+            // @ob C07.NodeId_append_leaves_the_tail_of_the_free_list_alone C07
             final(arena).last_free_slot == old(arena).last_free_slot,
             // @ob C05.append_has_the_effect_of_the_checked_form C05 C03
             exists|m: Seq<Node<T>>| #[trigger]
@@ -334,7 +356,9 @@ impl NodeId {
             },
             // @ob C05.append_rejection_is_atomic C05 C12
             r is Err ==> final(arena).nodes@ == old(arena).nodes@,
+            // @ob C07.NodeId_checked_append_leaves_the_head_of_the_free_list_alone C07
             final(arena).first_free_slot == old(arena).first_free_slot,
+            // @ob C07.NodeId_checked_append_leaves_the_tail_of_the_free_list_alone C07
             final(arena).last_free_slot == old(arena).last_free_slot,
             // @ob C08.append_keeps_every_payload_and_stamp C08
             payload_frame(old(arena).nodes@, final(arena).nodes@),
@@ -471,9 +495,13 @@ impl NodeId {
             new_child.idx() != self.idx(),
             exists|w: Ranks| ranked(old(arena).nodes@, w) && !in_sub(old(arena).nodes@, w, new_child.idx(), self.idx()),
         ensures
+            // @ob C01.wf@append_new_node_unchecked C01
             final(arena).wf(),
+            // @ob C03.append_new_node_unchecked_exact_effect C03
             insert_post(old(arena).nodes@, final(arena).nodes@, new_child, Some(self), old(arena).at(self).last_child, None),
+            // @ob C07.NodeId_append_new_node_unchecked_leaves_the_head_of_the_free_list_alone C07
             final(arena).first_free_slot == old(arena).first_free_slot,
+            // @ob C07.NodeId_append_new_node_unchecked_leaves_the_tail_of_the_free_list_alone C07
             final(arena).last_free_slot == old(arena).last_free_slot,
     {
         insert_last_unchecked(arena, new_child, self);
@@ -495,7 +523,9 @@ impl NodeId {
             data_ok(final(arena).nodes@),
             // @ob C07.free_list_well_formed@prepend C07
             final(arena).fl_ok(),
+            // @ob C07.NodeId_prepend_leaves_the_head_of_the_free_list_alone C07
             final(arena).first_free_slot == old(arena).first_free_slot,
+            // @ob C07.NodeId_prepend_leaves_the_tail_of_the_free_list_alone C07
             final(arena).last_free_slot == old(arena).last_free_slot,
             // @ob C05.prepend_has_the_effect_of_the_checked_form C05 C03
             exists|m: Seq<Node<T>>| #[trigger]
@@ -541,7 +571,9 @@ impl NodeId {
             },
             // @ob C05.prepend_rejection_is_atomic C05 C12
             r is Err ==> final(arena).nodes@ == old(arena).nodes@,
+            // @ob C07.NodeId_checked_prepend_leaves_the_head_of_the_free_list_alone C07
             final(arena).first_free_slot == old(arena).first_free_slot,
+            // @ob C07.NodeId_checked_prepend_leaves_the_tail_of_the_free_list_alone C07
             final(arena).last_free_slot == old(arena).last_free_slot,
             // @ob C08.prepend_keeps_every_payload_and_stamp C08
             payload_frame(old(arena).nodes@, final(arena).nodes@),
@@ -645,7 +677,9 @@ impl NodeId {
             data_ok(final(arena).nodes@),
             // @ob C07.free_list_well_formed@insert_after C07
             final(arena).fl_ok(),
+            // @ob C07.NodeId_insert_after_leaves_the_head_of_the_free_list_alone C07
             final(arena).first_free_slot == old(arena).first_free_slot,
+            // @ob C07.NodeId_insert_after_leaves_the_tail_of_the_free_list_alone C07
             final(arena).last_free_slot == old(arena).last_free_slot,
             // @ob C05.insert_after_has_the_effect_of_the_checked_form C05 C03
             exists|m: Seq<Node<T>>| #[trigger]
@@ -691,7 +725,9 @@ impl NodeId {
             },
             // @ob C05.insert_after_rejection_is_atomic C05 C12
             r is Err ==> final(arena).nodes@ == old(arena).nodes@,
+            // @ob C07.NodeId_checked_insert_after_leaves_the_head_of_the_free_list_alone C07
             final(arena).first_free_slot == old(arena).first_free_slot,
+            // @ob C07.NodeId_checked_insert_after_leaves_the_tail_of_the_free_list_alone C07
             final(arena).last_free_slot == old(arena).last_free_slot,
             // @ob C08.insert_after_keeps_every_payload_and_stamp C08
             payload_frame(old(arena).nodes@, final(arena).nodes@),
@@ -800,7 +836,9 @@ impl NodeId {
             data_ok(final(arena).nodes@),
             // @ob C07.free_list_well_formed@insert_before C07
             final(arena).fl_ok(),
+            // @ob C07.NodeId_insert_before_leaves_the_head_of_the_free_list_alone C07
             final(arena).first_free_slot == old(arena).first_free_slot,
+            // @ob C07.NodeId_insert_before_leaves_the_tail_of_the_free_list_alone C07
             final(arena).last_free_slot == old(arena).last_free_slot,
             // @ob C05.insert_before_has_the_effect_of_the_checked_form C05 C03
             exists|m: Seq<Node<T>>| #[trigger]
@@ -846,7 +884,9 @@ impl NodeId {
             },
             // @ob C05.insert_before_rejection_is_atomic C05 C12
             r is Err ==> final(arena).nodes@ == old(arena).nodes@,
+            // @ob C07.NodeId_checked_insert_before_leaves_the_head_of_the_free_list_alone C07
             final(arena).first_free_slot == old(arena).first_free_slot,
+            // @ob C07.NodeId_checked_insert_before_leaves_the_tail_of_the_free_list_alone C07
             final(arena).last_free_slot == old(arena).last_free_slot,
             // @ob C08.insert_before_keeps_every_payload_and_stamp C08
             payload_frame(old(arena).nodes@, final(arena).nodes@),
@@ -1056,6 +1096,7 @@ impl NodeId {
             data_ok(final(arena).nodes@),
             // @ob C07.free_list_well_formed@remove_subtree C07
             final(arena).fl_ok(),
+            // @ob C04.remove_subtree_keeps_the_number_of_slots C04
             final(arena).nodes@.len() == old(arena).nodes@.len(),
             // @ob C12.remove_subtree_removes_the_node C12 C04
             final(arena).at(self).stamp.removed(),
@@ -1176,7 +1217,9 @@ impl<T> Node<T> {
         ensures
             // @ob C12.new_node_has_no_links C12
             no_links(r),
+            // @ob C06.Node_new_starts_at_generation_zero C06
             r.stamp.0 == 0,
+            // @ob C08.Node_new_stores_the_payload C08
             r.data == NodeData::Data(data),
     {
         Self {
@@ -1199,8 +1242,11 @@ impl<T> Node<T> {
             no_links(*final(self)),
             // @ob C06.recycled_stamp_is_fresh C06
             final(self).stamp.0 == -old(self).stamp.0,
+            // @ob C06.Node_reuse_advances_the_generation C06
             !final(self).stamp.removed(),
+            // @ob C06.Node_reuse_advances_the_generation C06
             final(self).stamp.hw() == old(self).stamp.hw() + 1,
+            // @ob C08.Node_reuse_stores_the_payload C08
             final(self).data == NodeData::Data(data),
     {
         debug_assert!(matches!(self.data, NodeData::NextFree(_)));
@@ -1216,6 +1262,7 @@ impl<T> Node<T> {
     pub fn parent(&self) -> (r: Option<NodeId>)
         // @props C11
         ensures
+            // @ob C01.Node_parent_reports_the_stored_link C01
             r == self.parent,
     {
         self.parent
@@ -1223,6 +1270,7 @@ impl<T> Node<T> {
     pub fn first_child(&self) -> (r: Option<NodeId>)
         // @props C11
         ensures
+            // @ob C01.Node_first_child_reports_the_stored_link C01
             r == self.first_child,
     {
         self.first_child
@@ -1230,6 +1278,7 @@ impl<T> Node<T> {
     pub fn last_child(&self) -> (r: Option<NodeId>)
         // @props C11
         ensures
+            // @ob C01.Node_last_child_reports_the_stored_link C01
             r == self.last_child,
     {
         self.last_child
@@ -1237,6 +1286,7 @@ impl<T> Node<T> {
     pub fn previous_sibling(&self) -> (r: Option<NodeId>)
         // @props C11
         ensures
+            // @ob C01.Node_previous_sibling_reports_the_stored_link C01
             r == self.previous_sibling,
     {
         self.previous_sibling
@@ -1244,6 +1294,7 @@ impl<T> Node<T> {
     pub fn next_sibling(&self) -> (r: Option<NodeId>)
         // @props C11
         ensures
+            // @ob C01.Node_next_sibling_reports_the_stored_link C01
             r == self.next_sibling,
     {
         self.next_sibling
@@ -1251,12 +1302,14 @@ impl<T> Node<T> {
     pub fn is_removed(&self) -> (r: bool)
         // @props C11 C12
         ensures
+            // @ob C12.Node_is_removed_reads_the_stamp C12 C06
             r == self.stamp.removed(),
     {
         self.stamp.is_removed()
     }
     pub fn is_detached(&self) -> (r: bool)
         ensures
+            // @ob C03.Node_is_detached_means_no_parent_and_no_siblings C03
             r == (self.parent is None && self.previous_sibling is None && self.next_sibling is None),
     {
         self.parent.is_none() && self.previous_sibling.is_none() && self.next_sibling.is_none()
@@ -1389,6 +1442,7 @@ impl<T> Arena<T> {
             r.idx() < old(self).nodes@.len() ==> old(self).nodes@[r.idx()].stamp.can_reuse(),
             // @ob C06.new_node_id_is_fresh C06
             r.idx() < old(self).nodes@.len() ==> r.stamp.0 as int == old(self).nodes@[r.idx()].stamp.hw() + 1,
+            // @ob C06.new_node_fresh_slot_starts_at_generation_zero C06
             r.idx() >= old(self).nodes@.len() ==> r.stamp.0 == 0,
             // @ob C07.new_node_recycles_before_growing C07
             forall|fl: Seq<int>| #[trigger]
@@ -1405,7 +1459,9 @@ impl<T> Arena<T> {
                 }),
             // @ob C08.new_node_leaves_every_other_slot_untouched C08 C07
             forall|i: int| 0 <= i < old(self).nodes@.len() && i != r.idx() ==> final(self).nodes@[i] == old(self).nodes@[i],
+            // @ob C07.new_node_never_shrinks_the_arena C07
             final(self).nodes@.len() >= old(self).nodes@.len(),
+            // @ob C07.new_node_exact_effect C07 C08
             alloc_post(*old(self), *final(self), r, data),
     {
         proof {
@@ -1464,8 +1520,11 @@ impl<T> Arena<T> {
             r is Some ==> *r->0 == old(self).at(id),
             // @ob C08.get_mut_writes_only_the_addressed_slot C08 C01
             r is Some ==> final(self).nodes@ == old(self).nodes@.update(id.idx(), *final(r->0)),
+            // @ob C08.Arena_get_mut_frame C08
             r is None ==> final(self).nodes@ == old(self).nodes@,
+            // @ob C07.Arena_get_mut_leaves_the_head_of_the_free_list_alone C07
             final(self).first_free_slot == old(self).first_free_slot,
+            // @ob C07.Arena_get_mut_leaves_the_tail_of_the_free_list_alone C07
             final(self).last_free_slot == old(self).last_free_slot,
     {
         self.nodes.get_mut(id.index0())
@@ -1533,6 +1592,7 @@ impl<T> Arena<T> {
             final(self).fl_ok(),
             // @ob C02.free_node_keeps_rank_witness C02
             forall|w: Ranks| ranked(old(self).nodes@, w) ==> ranked(final(self).nodes@, w),
+            // @ob C07.free_node_keeps_the_number_of_slots C07
             final(self).nodes@.len() == old(self).nodes@.len(),
             // @ob C06.free_node_marks_removed C06 C12
             final(self).at(id).stamp.0 == -old(self).at(id).stamp.0 - 1,
@@ -1592,6 +1652,7 @@ impl<T> Arena<T> {
         requires
             old(self).fl_ok(),
         ensures
+            // @ob C07.pop_front_touches_no_slot C07 C08
             final(self).nodes@ == old(self).nodes@,
             // @ob C07.pop_front_unlinks_exactly_the_head_slot C07
             match first {
@@ -1646,6 +1707,7 @@ impl<T> Default for Arena<T> {
     fn default() -> (r: Self)
         // @props C13
         ensures
+            // @ob C13.default_equals_new C13
             r.nodes@.len() == 0 && r.first_free_slot is None && r.last_free_slot is None,
     {
         Self {
@@ -1674,7 +1736,9 @@ impl<T> IndexMut<NodeId> for Arena<T> {
             *r == old(self).at(node),
             // @ob C08.index_mut_writes_only_the_addressed_slot C08 C01
             final(self).nodes@ == old(self).nodes@.update(node.idx(), *final(r)),
+            // @ob C07.Arena_index_mut_leaves_the_head_of_the_free_list_alone C07
             final(self).first_free_slot == old(self).first_free_slot,
+            // @ob C07.Arena_index_mut_leaves_the_tail_of_the_free_list_alone C07
             final(self).last_free_slot == old(self).last_free_slot,
     {
         &mut self.nodes[node.index0()]
@@ -1929,7 +1993,9 @@ pub struct SiblingsRange {
 impl SiblingsRange {
     pub fn new(first: NodeId, last: NodeId) -> (r: Self)
         ensures
+            // @ob C03.SiblingsRange_new_keeps_the_ends_of_the_range C03 C04
             r.first == first,
+            // @ob C03.SiblingsRange_new_keeps_the_ends_of_the_range C03 C04
             r.last == last,
     {
         Self { first, last }
@@ -1949,9 +2015,13 @@ impl SiblingsRange {
             old(arena).at(self.first).previous_sibling is Some ==> old(arena).at(self.first).previous_sibling->0.idx()
                 != self.last.idx(),
         ensures
+            // @ob C03.SiblingsRange_detach_from_siblings_keeps_the_ends_of_the_range C03 C04
             r.first == self.first,
+            // @ob C03.SiblingsRange_detach_from_siblings_keeps_the_ends_of_the_range C03 C04
             r.last == self.last,
+            // @ob C07.SiblingsRange_detach_from_siblings_leaves_the_head_of_the_free_list_alone C07
             final(arena).first_free_slot == old(arena).first_free_slot,
+            // @ob C07.SiblingsRange_detach_from_siblings_leaves_the_tail_of_the_free_list_alone C07
             final(arena).last_free_slot == old(arena).last_free_slot,
             // @ob C08.detach_from_siblings_keeps_every_payload_and_stamp C08
             payload_frame(old(arena).nodes@, final(arena).nodes@),
@@ -2025,7 +2095,9 @@ pub struct DetachedSiblingsRange {
 impl DetachedSiblingsRange {
     pub fn new(first: NodeId, last: NodeId) -> (r: Self)
         ensures
+            // @ob C03.DetachedSiblingsRange_new_keeps_the_ends_of_the_range C03 C04
             r.first == first,
+            // @ob C03.DetachedSiblingsRange_new_keeps_the_ends_of_the_range C03 C04
             r.last == last,
     {
         Self { first, last }
@@ -2039,8 +2111,11 @@ impl DetachedSiblingsRange {
         requires
             exists|c: Seq<int>| is_chain(old(arena).nodes@, self.first.idx(), c),
         ensures
+            // @ob C03.rewrite_parents_keeps_the_number_of_slots C03
             final(arena).nodes@.len() == old(arena).nodes@.len(),
+            // @ob C07.DetachedSiblingsRange_rewrite_parents_leaves_the_head_of_the_free_list_alone C07
             final(arena).first_free_slot == old(arena).first_free_slot,
+            // @ob C07.DetachedSiblingsRange_rewrite_parents_leaves_the_tail_of_the_free_list_alone C07
             final(arena).last_free_slot == old(arena).last_free_slot,
             // @ob C05.rewrite_parents_fails_only_on_parent_in_range C05
             forall|c: Seq<int>| #[trigger]
@@ -2120,7 +2195,9 @@ impl DetachedSiblingsRange {
         ensures
             // @ob C05.transplant_succeeds C05
             res is Ok,
+            // @ob C07.DetachedSiblingsRange_transplant_leaves_the_head_of_the_free_list_alone C07
             final(arena).first_free_slot == old(arena).first_free_slot,
+            // @ob C07.DetachedSiblingsRange_transplant_leaves_the_tail_of_the_free_list_alone C07
             final(arena).last_free_slot == old(arena).last_free_slot,
             // @ob C08.transplant_keeps_every_payload_and_stamp C08
             payload_frame(old(arena).nodes@, final(arena).nodes@),
@@ -2213,7 +2290,9 @@ impl<'a, T> Iter<'a, T> {
     pub fn new<VxI0: Into<Option<NodeId>>>(arena: &'a Arena<T>, node: VxI0) -> (r: Self)
         // @props C09
         ensures
+            // @ob C09.Iter_new_stores_its_arguments C09
             r.arena == arena,
+            // @ob C09.Iter_new_stores_its_arguments C09
             <VxI0 as vstd::std_specs::convert::IntoSpec<Option<NodeId>>>::obeys_into_spec() ==> r.node == <VxI0 as vstd::std_specs::convert::IntoSpec<
                 Option<NodeId>,
             >>::into_spec(node),
@@ -2236,10 +2315,13 @@ impl<'a, T> DoubleEndedIter<'a, T> {
     ) -> (r: Self)
         // @props C10
         ensures
+            // @ob C09.DoubleEndedIter_new_stores_its_arguments C09
             r.arena == arena,
+            // @ob C09.DoubleEndedIter_new_stores_its_arguments C09
             <VxI0 as vstd::std_specs::convert::IntoSpec<Option<NodeId>>>::obeys_into_spec() ==> r.head == <VxI0 as vstd::std_specs::convert::IntoSpec<
                 Option<NodeId>,
             >>::into_spec(head),
+            // @ob C09.DoubleEndedIter_new_stores_its_arguments C09
             <VxI1 as vstd::std_specs::convert::IntoSpec<Option<NodeId>>>::obeys_into_spec() ==> r.tail == <VxI1 as vstd::std_specs::convert::IntoSpec<
                 Option<NodeId>,
             >>::into_spec(tail),
@@ -2272,7 +2354,9 @@ impl<'a, T> Ancestors<'a, T> {
         ensures
             // @ob C09.ancestors_yield_the_cursor_then_its_parent C09 C02
             r == old(self).0.node,
+            // @ob C09.Ancestors_next_keeps_its_arena C09
             final(self).0.arena == old(self).0.arena,
+            // @ob C09.Ancestors_next_step_follows_the_documented_link C09
             final(self).0.node == (match old(self).0.node {
                 Some(x) => old(self).0.arena.at(x).parent,
                 None => None,
@@ -2309,7 +2393,9 @@ impl<'a, T> Predecessors<'a, T> {
         ensures
             // @ob C09.predecessors_yield_the_cursor_then_previous_sibling_or_parent C09
             r == old(self).0.node,
+            // @ob C09.Predecessors_next_keeps_its_arena C09
             final(self).0.arena == old(self).0.arena,
+            // @ob C09.Predecessors_next_step_follows_the_documented_link C09
             final(self).0.node == (match old(self).0.node {
                 Some(x) => if old(self).0.arena.at(x).previous_sibling is Some {
                     old(self).0.arena.at(x).previous_sibling
@@ -2336,6 +2422,7 @@ impl<'a, T> PrecedingSiblings<'a, T> {
             arena.wf(),
             arena.live(node),
         ensures
+            // @ob C09.PrecedingSiblings_new_starts_where_documented C09
             r.0.arena == arena,
             // @ob C09.PrecedingSiblings_start_at_the_node_and_follow_the_sibling_links C09 C10
             forall|w: Ranks| #[trigger]
@@ -2407,6 +2494,7 @@ impl<'a, T> PrecedingSiblings<'a, T> {
         requires
             exists|d: Seq<NodeId>| deq(old(self).0.arena.nodes@, old(self).0.head, old(self).0.tail, d, false),
         ensures
+            // @ob C10.PrecedingSiblings_next_keeps_its_arena C10
             final(self).0.arena == old(self).0.arena,
             // @ob C10.PrecedingSiblings_front_pull_pops_the_front_of_the_deque C10 C09 C02
             forall|d: Seq<NodeId>| #[trigger]
@@ -2460,6 +2548,7 @@ impl<'a, T> PrecedingSiblings<'a, T> {
         requires
             exists|d: Seq<NodeId>| deq(old(self).0.arena.nodes@, old(self).0.head, old(self).0.tail, d, false),
         ensures
+            // @ob C10.PrecedingSiblings_next_back_keeps_its_arena C10
             final(self).0.arena == old(self).0.arena,
             // @ob C10.PrecedingSiblings_back_pull_pops_the_back_of_the_deque C10 C02
             forall|d: Seq<NodeId>| #[trigger]
@@ -2516,6 +2605,7 @@ impl<'a, T> FollowingSiblings<'a, T> {
             arena.wf(),
             arena.live(node),
         ensures
+            // @ob C09.FollowingSiblings_new_starts_where_documented C09
             r.0.arena == arena,
             // @ob C09.FollowingSiblings_start_at_the_node_and_follow_the_sibling_links C09 C10
             forall|w: Ranks| #[trigger]
@@ -2587,6 +2677,7 @@ impl<'a, T> FollowingSiblings<'a, T> {
         requires
             exists|d: Seq<NodeId>| deq(old(self).0.arena.nodes@, old(self).0.head, old(self).0.tail, d, true),
         ensures
+            // @ob C10.FollowingSiblings_next_keeps_its_arena C10
             final(self).0.arena == old(self).0.arena,
             // @ob C10.FollowingSiblings_front_pull_pops_the_front_of_the_deque C10 C09 C02
             forall|d: Seq<NodeId>| #[trigger]
@@ -2640,6 +2731,7 @@ impl<'a, T> FollowingSiblings<'a, T> {
         requires
             exists|d: Seq<NodeId>| deq(old(self).0.arena.nodes@, old(self).0.head, old(self).0.tail, d, true),
         ensures
+            // @ob C10.FollowingSiblings_next_back_keeps_its_arena C10
             final(self).0.arena == old(self).0.arena,
             // @ob C10.FollowingSiblings_back_pull_pops_the_back_of_the_deque C10 C02
             forall|d: Seq<NodeId>| #[trigger]
@@ -2696,6 +2788,7 @@ impl<'a, T> Children<'a, T> {
             arena.wf(),
             arena.has(node),
         ensures
+            // @ob C09.Children_new_starts_where_documented C09
             r.0.arena == arena,
             // @ob C09.children_are_the_child_list_in_order C09 C10
             forall|w: Ranks| #[trigger]
@@ -2723,6 +2816,7 @@ impl<'a, T> Children<'a, T> {
         requires
             exists|d: Seq<NodeId>| deq(old(self).0.arena.nodes@, old(self).0.head, old(self).0.tail, d, true),
         ensures
+            // @ob C10.Children_next_keeps_its_arena C10
             final(self).0.arena == old(self).0.arena,
             // @ob C10.Children_front_pull_pops_the_front_of_the_deque C10 C09 C02
             forall|d: Seq<NodeId>| #[trigger]
@@ -2773,6 +2867,7 @@ impl<'a, T> Children<'a, T> {
         requires
             exists|d: Seq<NodeId>| deq(old(self).0.arena.nodes@, old(self).0.head, old(self).0.tail, d, true),
         ensures
+            // @ob C10.Children_next_back_keeps_its_arena C10
             final(self).0.arena == old(self).0.arena,
             // @ob C10.Children_back_pull_pops_the_back_of_the_deque C10 C02
             forall|d: Seq<NodeId>| #[trigger]
@@ -2845,7 +2940,9 @@ impl<'a, T> ReverseChildren<'a, T> {
         ensures
             // @ob C09.reverse_children_yield_the_cursor_then_its_previous_sibling C09
             r == old(self).0.node,
+            // @ob C09.ReverseChildren_next_keeps_its_arena C09
             final(self).0.arena == old(self).0.arena,
+            // @ob C09.ReverseChildren_next_step_follows_the_documented_link C09
             final(self).0.node == (match old(self).0.node {
                 Some(x) => old(self).0.arena.at(x).previous_sibling,
                 None => None,
@@ -2895,6 +2992,7 @@ impl<'a, T> Descendants<'a, T> {
     pub fn new(arena: &'a Arena<T>, current: NodeId) -> (r: Self)
         // @props C09
         ensures
+            // @ob C09.Descendants_new_starts_where_documented C09
             r.0.arena == arena && r.0.root == current && r.0.next == Some(NodeEdge::Start(current)),
     {
         Self(Traverse::new(arena, current))
@@ -2907,7 +3005,9 @@ impl<T> Descendants<'_, T> {
             old(self).0.arena.wf(),
             old(self).0.next is Some ==> tgt_ok(old(self).0.arena.nodes@, Some(edge_node(old(self).0.next->0))),
         ensures
+            // @ob C09.Descendants_next_keeps_arena_root_and_a_valid_cursor C09
             final(self).0.arena == old(self).0.arena && final(self).0.root == old(self).0.root,
+            // @ob C09.Descendants_next_keeps_arena_root_and_a_valid_cursor C09
             final(self).0.next is Some ==> tgt_ok(final(self).0.arena.nodes@, Some(edge_node(final(self).0.next->0))),
             // @ob C09.descendants_are_the_start_edges_of_traverse_in_order C09
             forall|w: Ranks| #[trigger]
@@ -3093,6 +3193,7 @@ impl<'a, T> Traverse<'a, T> {
     }
     pub fn arena(&self) -> (r: &Arena<T>)
         ensures
+            // @ob C09.Traverse_arena_accessor C09
             r == self.arena,
     {
         self.arena
@@ -3106,7 +3207,9 @@ impl<T> Traverse<'_, T> {
         ensures
             // @ob C09.traverse_yields_the_pending_edge_and_steps_depth_first C09
             r == old(self).next,
+            // @ob C09.Traverse_next_keeps_arena_and_root C09
             final(self).arena == old(self).arena && final(self).root == old(self).root,
+            // @ob C09.Traverse_next_steps_to_the_documented_edge C09
             final(self).next == (match old(self).next {
                 Some(e) => if e == NodeEdge::End(old(self).root) {
                     None
@@ -3166,7 +3269,9 @@ impl<T> ReverseTraverse<'_, T> {
         ensures
             // @ob C09.reverse_traverse_yields_the_pending_edge_and_steps_backwards C09
             r == old(self).next,
+            // @ob C09.ReverseTraverse_next_keeps_arena_and_root C09
             final(self).arena == old(self).arena && final(self).root == old(self).root,
+            // @ob C09.ReverseTraverse_next_steps_to_the_documented_edge C09
             final(self).next == (match old(self).next {
                 Some(e) => if e == NodeEdge::Start(old(self).root) {
                     None
